@@ -25,10 +25,11 @@ RULE = ("metamorphic: each call spec (all iterator tools, groupby operation sequ
         "non-empty input; distinct = (spec, flavour vector)")
 RULE += (' Also: source flavours async_class_bare / async_class_future (non-coroutine awaitable from __anext__) ; ExitStack variants with enter_context of plain vs asynchronous managers whose enter may fail; all probe class sources, locks and callable objects are falsy and report len() == 0.')
 RULE += (' Also: a callable that fails at its k-th call (incl. StopIteration / StopAsyncIteration) for every flavour of callable.')
+RULE += (' Also: a source failing at its k-th use (AttributeError, TypeError, KeyError, ...) for every flavour of source; asynctools.any_iter; iterables that are not iterators.')
 ASSUMPTIONS = ["baseline (list + def) behaviour itself is judged by C01/C02, not here"]
 EXHAUSTIVE = {"quick": False, "thorough": False}
 N_SPECS = {"quick": 6000, "thorough": 200000}
-SRC_FL = ["list", "getitem_seq", "sync_iter", "async_gen", "async_class", "async_class_bare", "async_class_future", "async_class_lazy"]
+SRC_FL = ["list", "getitem_seq", "sync_iter", "async_gen", "async_class", "async_class_bare", "async_class_future", "async_class_lazy", "async_iterable", "sync_iterable"]
 FN_FL = ["def", "async_def", "partial", "callobj", "awaitobj"]
 
 
@@ -36,7 +37,18 @@ CALL_FAULTS = ["StopIteration", "StopAsyncIteration", "StopIteration", "ValueErr
                "AttributeError", "Injected", "InjectedBase", "RuntimeError"]
 
 
+SRC_FAULTS = ["AttributeError", "TypeError", "KeyError", "ValueError", "LookupError", "RuntimeError", "Injected", "InjectedBase"]
+# flavours that can be made to fail at their k-th use (a plain list / tuple cannot; for a __getitem__ sequence an
+# IndexError / LookupError subclass is the end signal)
+FAULTABLE = ["sync_iter", "async_gen", "async_class", "async_class_bare", "async_class_future", "async_class_lazy",
+             "async_iterable", "sync_iterable"]
+
+
 def _call_fault(case):
+    if "src_fault" in case:
+        from ..probes import FAULT_TYPES
+        idx, use, name = case["src_fault"]
+        return Fault("src", idx, use, FAULT_TYPES[name]("injected"), "call")
     if "fault" not in case:
         return None
     from ..probes import FAULT_TYPES
@@ -50,10 +62,13 @@ def cases(tier, seed, shard, nshards):
         yield {"kind": "return-kinds"}
     rng = random.Random(f"C03-{seed}-{shard}")
     n = N_SPECS[tier] // nshards
-    names = gen.ITER_TOOL_NAMES + gen.AGG_NAMES
+    names = gen.ITER_TOOL_NAMES + gen.AGG_NAMES + ["any_iter"]
     for i in range(n):
         name = names[i % len(names)]
-        spec = gen.agg_spec(rng, name, 5) if name in gen.AGG_NAMES else gen.iter_spec(rng, name, 5)
+        if name == "any_iter":
+            spec = {"tool": "any_iter", "srcs": [gen.keys_seq(rng, 5)], "fns": [], "params": {}}
+        else:
+            spec = gen.agg_spec(rng, name, 5) if name in gen.AGG_NAMES else gen.iter_spec(rng, name, 5)
         case = {"kind": "tool", "spec": spec, "vseed": rng.randrange(1 << 30), "maxvec": 60 if tier == "quick" else 500}
         live = [k for k, f in enumerate(spec.get("fns", [])) if f is not None]
         if live and rng.random() < 0.35:
@@ -61,6 +76,13 @@ def cases(tier, seed, shard, nshards):
             # also when what it raises is StopIteration / StopAsyncIteration, which a plain function raises
             # directly into the caller's frame and a coroutine cannot
             case["fault"] = [rng.choice(live), rng.choice([1, 1, 2, 3]), rng.choice(CALL_FAULTS)]
+        elif spec["srcs"] and name != "iter_sentinel" and not spec.get("same") and rng.random() < 0.25:
+            # one SOURCE fails at its k-th use: whatever it raises comes out the same for every flavour of source
+            # (also an AttributeError / TypeError / KeyError, which a library may be tempted to take for its own)
+            # (uses 1 .. len+1: the items and the FIRST end-of-source check; later polls of an exhausted source are
+            # made by some flavours of wrapping only, see C06)
+            si = rng.randrange(len(spec["srcs"]))
+            case["src_fault"] = [si, rng.randint(1, len(spec["srcs"][si]) + 1), rng.choice(SRC_FAULTS)]
         yield case
     from . import C16
     k16 = 0
@@ -107,7 +129,11 @@ def run_tool(case, stats):
     nfn = len(fns)
     live_fn = [i for i, f in enumerate(fns) if f is not None]
     steps = spec.get("steps")
-    base = run_async_side(spec, flavours=["list"] * nsrc, fn_flavours=["def"] * nfn, steps=steps, outer_flavour="list",
+    base_fl = ["list"] * nsrc
+    if "src_fault" in case:
+        base_fl[case["src_fault"][0]] = "sync_iter"
+        stats["specs_with_a_failing_source"] += 1
+    base = run_async_side(spec, flavours=base_fl, fn_flavours=["def"] * nfn, steps=steps, outer_flavour="list",
                           fault=_call_fault(case))
     if "fault" in case:
         stats["specs_with_a_failing_callable"] += 1
@@ -119,7 +145,10 @@ def run_tool(case, stats):
         fvec = ["def"] * nfn
         for i, fl in zip(live_fn, fv):
             fvec[i] = fl
-        if all(f == "list" for f in sv) and all(f == "def" for f in fvec):
+        if "src_fault" in case and sv[case["src_fault"][0]] not in FAULTABLE:
+            sv = list(sv)
+            sv[case["src_fault"][0]] = rng.choice(FAULTABLE)
+        if list(sv) == base_fl and all(f == "def" for f in fvec):
             continue
         evals += 1
         if complete:
